@@ -188,6 +188,17 @@ func (p *Packer) Pack(src string, w io.Writer) (*Meta, error) {
 		ignoreRules = parseIgnoreFile(src)
 	}
 
+	// Abs builds on the working directory the way $PWD spells it, which may
+	// lead through links (a shell after "cd" into a linked directory). The tree
+	// must be walked, and absolute link targets judged, at its real place.
+	if !filepath.IsAbs(src) {
+		if wd, err := os.Getwd(); err == nil {
+			if wd, err = filepath.EvalSymlinks(wd); err == nil {
+				src = filepath.Join(wd, src)
+			}
+		}
+	}
+
 	// Ensure the source path provided is absolute
 	src, err = filepath.Abs(src)
 	if err != nil {
